@@ -846,3 +846,301 @@ pub fn map_len<I: Ip>(m: &PeerMap<I>) -> usize {
         PeerMap::Large(l) => l.peers.len(),
     }
 }
+
+// ------------------------------------------------------------------ C04: sequentialised interleavings
+
+/// Shared context for the operation injected at a probe point ("the other thread").
+static mut C04_MAPS: Option<*const TorrentMapShards<Ipv4AddrBytes>> = None;
+static mut C04_POINT: u8 = 0;
+static mut C04_FIRED: bool = false;
+static mut C04_KIND: u8 = 0; // 0 = cleaning pass, 1 = announce of another peer, 2 = scrape
+static mut C04_NOW: u32 = 0;
+static mut C04_HASH: [u8; 20] = [0; 20];
+static mut C04_B_KEY: (Ipv4AddrBytes, u16) = (Ipv4AddrBytes([0; 4]), 1);
+static mut C04_B_SCRAPE: (i32, i32) = (-1, -1);
+
+fn c04_injected(point: u8) {
+    unsafe {
+        // every probe point is a lock-free gap: the suspended operation holds no lock there
+        assert!(crate::verif_shims::held_total() == 0, "a lock is held across a gap where the other thread may run");
+        if point != C04_POINT || C04_FIRED {
+            return;
+        }
+        C04_FIRED = true;
+        let maps = &*C04_MAPS.unwrap();
+        let config = mk_config(2, false, AccessListMode::Off);
+        match C04_KIND {
+            0 => {
+                let shared = Arc::new(AccessListArcSwap::new(Arc::new(aquatic_common::access_list::AccessList::default())));
+                let mut cache = create_access_list_cache(&shared);
+                let mut msgs = Vec::new();
+                let mut w: Option<BufWriter<File>> = None;
+                let _ = maps.clean_and_get_statistics(&config, &mut msgs, &mut cache, AccessListMode::Off, SecondsSinceServerStart::new_raw(C04_NOW), &mut w);
+                std::mem::forget(cache);
+                std::mem::forget(shared);
+                std::mem::forget(msgs);
+            }
+            1 => {
+                let (tx, rx) = crossbeam_channel::unbounded();
+                let mut rng = any_rng();
+                let mut req = lean_announce(C04_HASH, [2; 20]);
+                req.event = AnnounceEvent::Started;
+                req.port = Port::new(NonZeroU16::new(C04_B_KEY.1).unwrap());
+                let r = maps.announce(&config, &tx, &mut rng, &req, C04_B_KEY.0, ValidUntil::new_raw(SecondsSinceServerStart::new_raw(u32::MAX)));
+                std::mem::forget(r);
+                std::mem::forget(tx);
+                std::mem::forget(rx);
+            }
+            _ => {
+                let mut v = Vec::with_capacity(1);
+                v.push(InfoHash(C04_HASH));
+                let r = maps.scrape(ScrapeRequest { connection_id: ConnectionId::new(0), transaction_id: TransactionId::new(0), info_hashes: v });
+                if r.torrent_stats.len() == 1 {
+                    let st = r.torrent_stats[0];
+                    C04_B_SCRAPE = (st.seeders.0.get(), st.leechers.0.get());
+                }
+                std::mem::forget(r);
+            }
+        }
+        std::mem::forget(config);
+        assert!(crate::verif_shims::held_total() == 0, "injected operation left a lock held");
+    }
+}
+
+/// Announce request with only the fields that matter for interleavings symbolic (event, left==0);
+/// identifiers and counters are fixed: no checked relation depends on their values.
+pub fn lean_announce(info_hash: [u8; 20], peer_id: [u8; 20]) -> AnnounceRequest {
+    AnnounceRequest {
+        connection_id: ConnectionId::new(0),
+        action_placeholder: AnnounceActionPlaceholder::Announce,
+        transaction_id: TransactionId::new(7),
+        info_hash: InfoHash(info_hash),
+        peer_id: PeerId(peer_id),
+        bytes_downloaded: NumberOfBytes::new(0),
+        bytes_left: NumberOfBytes::new(if kani::any() { 0 } else { 1 }),
+        bytes_uploaded: NumberOfBytes::new(0),
+        event: any_event(),
+        ip_address: Ipv4AddrBytes([0; 4]),
+        key: PeerKey::new(0),
+        peers_wanted: NumberOfPeers::new(-1),
+        port: Port::new(NonZeroU16::new(1000).unwrap()),
+    }
+}
+
+fn lean_ent(ip: [u8; 4], port: u16, id: u8) -> Ent<Ipv4AddrBytes> {
+    Ent { key: ResponsePeer { ip_address: Ipv4AddrBytes(ip), port: Port(port.into()) }, peer_id: [id; 20], seeder: kani::any(), deadline: kani::any() }
+}
+
+/// A = announce of peer X for torrent T; B (cleaning pass | announce of peer Y | scrape) runs to
+/// completion inside A's lock-free gap (after A took its reference to T's peer map, before it
+/// locks it). T is absent, present-and-empty, or holds one (possibly expired) peer Z.
+/// Afterwards a quiescent scrape must see every announce that was answered:
+///   - X is stored unless it announced 'stopped' (never lost to the concurrent cleaning pass);
+///   - Y (injected announce) is stored; Z is stored unless the cleaning pass expired it;
+///   - A's reply counts are those of one of the two sequential orders.
+pub fn c04_announce_gap(kind: u8, pre: u8) {
+    let maps: TorrentMapShards<Ipv4AddrBytes> = TorrentMapShards::new(1);
+    let h: [u8; 20] = [9; 20];
+    let z = lean_ent([10, 0, 0, 3], 3000, 3);
+    let now: u32 = kani::any();
+    // pre: 0 absent, 1 present-empty, 2 one stored peer Z
+    if pre == 1 {
+        maps.0[0].write().insert(InfoHash(h), Arc::new(RwLock::new(PeerMap::default())));
+    } else if pre == 2 {
+        maps.0[0].write().insert(InfoHash(h), Arc::new(RwLock::new(mk_peer_map(&[z], false))));
+    }
+    let ykey: ResponsePeer<Ipv4AddrBytes> = ResponsePeer { ip_address: Ipv4AddrBytes([10, 0, 0, 2]), port: Port(2000u16.into()) };
+    unsafe {
+        C04_MAPS = Some(&maps as *const _);
+        C04_POINT = 1;
+        C04_FIRED = false;
+        C04_KIND = kind;
+        C04_NOW = now;
+        C04_HASH = h;
+        C04_B_KEY = (ykey.ip_address, 2000);
+        C04_B_SCRAPE = (-1, -1);
+    }
+    crate::verif_shims::set_probe(Some(c04_injected));
+    let config = mk_config(2, false, AccessListMode::Off);
+    let (tx, rx) = crossbeam_channel::unbounded();
+    let mut rng = any_rng();
+    let req = lean_announce(h, [1; 20]);
+    let xip = Ipv4AddrBytes([10, 0, 0, 1]);
+    let ev = req.event;
+    let stopped = ev == AnnounceEvent::Stopped;
+    let x_seeder = req.bytes_left.0.get() == 0;
+
+    let resp = maps.announce(&config, &tx, &mut rng, &req, xip, ValidUntil::new_raw(SecondsSinceServerStart::new_raw(u32::MAX)));
+
+    crate::verif_shims::set_probe(None);
+    assert!(unsafe { C04_FIRED }, "the gap was never reached");
+    assert!(crate::verif_shims::held_total() == 0, "announce left a lock held");
+    // quiescent observation
+    let mut v = Vec::with_capacity(1);
+    v.push(InfoHash(h));
+    let sc = maps.scrape(ScrapeRequest { connection_id: ConnectionId::new(0), transaction_id: TransactionId::new(0), info_hashes: v });
+    let st = sc.torrent_stats[0];
+    let total = (st.seeders.0.get() + st.leechers.0.get()) as usize;
+    let z_alive = pre == 2 && !(kind == 0 && z.deadline <= now);
+    let want = (if stopped { 0 } else { 1 }) + (if kind == 1 { 1 } else { 0 }) + (if z_alive { 1 } else { 0 });
+    assert!(total == want, "an answered announce was lost (or a peer duplicated) under interleaving with the other operation");
+    let want_seeders = (if !stopped && x_seeder { 1 } else { 0 }) + (if z_alive && z.seeder { 1 } else { 0 });
+    let b_seeder_unknown = kind == 1; // Y's seeder flag is chosen inside the injected announce
+    assert!(b_seeder_unknown || st.seeders.0.get() as usize == want_seeders, "seeder count after interleaving");
+    // A's reply: counts of the others at A's linearisation point (after B, since B ran in the gap)
+    let others_after_b = (if kind == 1 { 1 } else { 0 }) + (if z_alive { 1 } else { 0 });
+    let r_total = (resp.fixed.seeders.0.get() + resp.fixed.leechers.0.get()) as usize;
+    assert!(r_total == others_after_b, "announce reply counts are not those of a sequential order");
+    if kind == 2 {
+        // the injected scrape ran before A's insertion: it must see exactly the pre-state
+        let b = unsafe { C04_B_SCRAPE };
+        assert!((b.0 + b.1) as usize == if pre == 2 { 1 } else { 0 }, "concurrent scrape saw a half-applied announce");
+    }
+    kani::cover!(!stopped, "X stored");
+    std::mem::forget(resp);
+    std::mem::forget(sc);
+    std::mem::forget(maps);
+    std::mem::forget(config);
+    std::mem::forget(tx);
+    std::mem::forget(rx);
+}
+
+/// B = announce of peer Y injected into a gap of a cleaning pass A (point 3: before a torrent's
+/// peer map is locked in phase 1; point 4: between phase 1 and the shard write lock of phase 2).
+/// T holds one peer Z (possibly expired). Y must survive the pass; Z survives <=> deadline > now.
+pub fn c04_clean_gap(point: u8) {
+    let maps: TorrentMapShards<Ipv4AddrBytes> = TorrentMapShards::new(1);
+    let h: [u8; 20] = [9; 20];
+    let z = lean_ent([10, 0, 0, 3], 3000, 3);
+    let now: u32 = kani::any();
+    maps.0[0].write().insert(InfoHash(h), Arc::new(RwLock::new(mk_peer_map(&[z], false))));
+    let ykey: ResponsePeer<Ipv4AddrBytes> = ResponsePeer { ip_address: Ipv4AddrBytes([10, 0, 0, 2]), port: Port(2000u16.into()) };
+    unsafe {
+        C04_MAPS = Some(&maps as *const _);
+        C04_POINT = point;
+        C04_FIRED = false;
+        C04_KIND = 1;
+        C04_NOW = now;
+        C04_HASH = h;
+        C04_B_KEY = (ykey.ip_address, 2000);
+    }
+    crate::verif_shims::set_probe(Some(c04_injected));
+    let config = mk_config(2, false, AccessListMode::Off);
+    let shared = Arc::new(AccessListArcSwap::new(Arc::new(aquatic_common::access_list::AccessList::default())));
+    let mut cache = create_access_list_cache(&shared);
+    let mut msgs = Vec::new();
+    let mut w: Option<BufWriter<File>> = None;
+    let (torrents, _peers, _) = maps.clean_and_get_statistics(&config, &mut msgs, &mut cache, AccessListMode::Off, SecondsSinceServerStart::new_raw(now), &mut w);
+    crate::verif_shims::set_probe(None);
+    assert!(unsafe { C04_FIRED }, "the gap was never reached");
+    assert!(crate::verif_shims::held_total() == 0, "cleaning left a lock held");
+    let mut v = Vec::with_capacity(1);
+    v.push(InfoHash(h));
+    let sc = maps.scrape(ScrapeRequest { connection_id: ConnectionId::new(0), transaction_id: TransactionId::new(0), info_hashes: v });
+    let st = sc.torrent_stats[0];
+    let total = (st.seeders.0.get() + st.leechers.0.get()) as usize;
+    let z_alive = z.deadline > now;
+    assert!(total == 1 + if z_alive { 1 } else { 0 }, "peer announced during a cleaning pass was lost (or an expired peer kept)");
+    assert!(torrents == 1, "torrent with a freshly announced peer not counted / removed by the concurrent cleaning pass");
+    std::mem::forget(sc);
+    std::mem::forget(maps);
+    std::mem::forget(config);
+    std::mem::forget(cache);
+    std::mem::forget(shared);
+    std::mem::forget(msgs);
+}
+
+// ------------------------------------------------------------------ C10 / C20 leaf level: per-torrent cleaning
+
+/// `SmallPeerMap::clean_and_get_num_peers` / `LargePeerMap::clean_and_get_num_peers` (+
+/// `try_shrink`) on a peer map of exactly N symbolic peers. The three lines of glue that
+/// `TorrentMapShards::clean_and_get_statistics` puts around them (dispatch on the variant,
+/// shrink a heap map that became small) are replicated here, because the shard-level function
+/// itself (Arc<RwLock<..>> maps, two-phase loop) exhausts CBMC's memory even for an empty torrent.
+pub fn peermap_clean_leaf<I: KIp, const N: usize, const B: usize>(large: bool, peer_clients: bool) {
+    let ents = any_ents::<I, N>();
+    let mut m = mk_peer_map(&ents, large);
+    let config = mk_config(4, peer_clients, AccessListMode::Off);
+    let now: u32 = kani::any();
+    let mut msgs: Vec<StatisticsMessage> = Vec::with_capacity(N + 1);
+    let nowt = SecondsSinceServerStart::new_raw(now);
+    let (rs, rl) = match &mut m {
+        PeerMap::Small(s) => s.clean_and_get_num_peers(&config, &mut msgs, nowt),
+        PeerMap::Large(l) => {
+            let r = l.clean_and_get_num_peers(&config, &mut msgs, nowt);
+            if let Some(s) = l.try_shrink() {
+                m = PeerMap::Small(s);
+            }
+            r
+        }
+    };
+    let mut kept = 0usize;
+    let mut kept_seeders = 0usize;
+    let mut i = 0;
+    while i < N {
+        if ents[i].deadline > now {
+            kept += 1;
+            if ents[i].seeder {
+                kept_seeders += 1;
+            }
+        }
+        i += 1;
+    }
+    assert!(rs == kept_seeders && rl == kept - kept_seeders, "counts returned by cleaning != peers whose deadline is in the future");
+    let post = snapshot::<I, B>(&m);
+    assert!(post.len == kept, "stored peers != peers with deadline in the future");
+    assert!(post.inv(), "cached seeder count inconsistent after cleaning");
+    assert!(post.seeders() == kept_seeders, "seeder count after cleaning");
+    assert!(post.large == (large && kept > SMALL_PEER_MAP_CAPACITY), "heap map must shrink back when <= 2 peers remain");
+    assert!(m.is_empty() == (kept == 0), "is_empty after cleaning");
+    if N > 0 {
+        let j: usize = kani::any();
+        kani::assume(j < N);
+        let ej = pick(&ents, j);
+        let (cnt, found) = post.find(&ej.key);
+        if ej.deadline > now {
+            match found {
+                Some(p) => assert!(cnt == 1 && p.is_seeder == ej.seeder && p.peer_id.0 == ej.peer_id && deadline_is(&p.valid_until, ej.deadline), "live peer changed by cleaning"),
+                None => assert!(false, "peer removed before its deadline"),
+            }
+        } else {
+            assert!(found.is_none(), "peer still stored at or after its deadline");
+        }
+    }
+    let nm = msgs.len();
+    if peer_clients {
+        assert!(nm == N - kept, "number of PeerRemoved messages != expired peers");
+        let pid: [u8; 20] = kani::any();
+        let mut removed_msgs = 0usize;
+        let mut i = 0;
+        while i < B {
+            if i < nm {
+                if let StatisticsMessage::PeerRemoved(p) = &msgs[i] {
+                    if p.0 == pid {
+                        removed_msgs += 1;
+                    }
+                } else {
+                    assert!(false, "unexpected statistics message from cleaning");
+                }
+            }
+            i += 1;
+        }
+        let mut expired_with_pid = 0usize;
+        let mut i = 0;
+        while i < N {
+            if ents[i].deadline <= now && ents[i].peer_id == pid {
+                expired_with_pid += 1;
+            }
+            i += 1;
+        }
+        assert!(removed_msgs == expired_with_pid, "PeerRemoved messages per peer id != expired peers carrying it");
+    } else {
+        assert!(nm == 0, "statistics messages although peer_clients is off");
+    }
+    kani::cover!(N == 0 || kept == N, "nothing expired");
+    kani::cover!(N == 0 || kept == 0, "everything expired");
+    kani::cover!(N < 2 || (kept > 0 && kept < N), "some expired");
+    std::mem::forget(msgs);
+    std::mem::forget(m);
+    std::mem::forget(config);
+}
